@@ -776,6 +776,19 @@ func GenC06(seed uint64) *Plan {
 	} else {
 		d := g.randomDecl(p, 0, "t_ig0", start, stop, []int{30, 0})
 		p.Decls = append(p.Decls, d)
+		if g.chance(30) {
+			// a second integration on the same source from the same start with
+			// another stop: both read the same cached segments, clipped
+			// differently
+			stop2 := stop + uint64(g.between(1, 5))
+			if stop == 0 || g.chance(30) {
+				stop2 = start + uint64(g.between(0, 6))
+			}
+			d2 := g.randomDecl(p, 1, "t_ig1", start, stop2, []int{30, 0})
+			g.hashedDecl(d)
+			g.hashedDecl(d2)
+			p.Decls = append(p.Decls, d2)
+		}
 	}
 	g.ensureEvents(p)
 	p.Faults.HealAt = g.between(100, 600)
